@@ -140,7 +140,7 @@ func class(r txres) string {
 		{"length validations of fields failed", "fields"}, {"validations with previous marker failed", "prev"},
 		{"Signature verification failed", "sig"}, {"can't get related allocation", "no-alloc"},
 		{"early reading", "early"}, {"late reading", "late"}, {"blobber doesn't belong to allocation", "not-in-alloc"},
-		{"not enough tokens in read pool", "insufficient"}, {"can't move tokens to blobber", "distribute"},
+		{"read counter increment is out of range", "range"}, {"not enough tokens in read pool", "insufficient"}, {"can't move tokens to blobber", "distribute"},
 		{"insufficient amount to lock", "min-lock"}, {"invalid amount to lock", "zero-lock"},
 		{"no read pool found", "no-pool"}, {"lock amount is greater than balance", "balance"},
 	} {
